@@ -132,6 +132,7 @@ package ledger
 //@   ensures one_atomic_write: kvWrites <= old(kvWrites) + 1 && kvDirect == old(kvDirect)
 //@   at fieldwrite.meta assert [C05] memory_follows_the_disk: kvErr == nil && $1 == newMeta
 //@   at LRUCache.Keys assert [C05] failed_confirmation_drops_every_cached_header: !confirmStatus.Succ && recv == l.blkHeaderCache
+//@   at LRUCache.Keys assert [C04] refused_block_leaves_no_rewritten_header_behind: !confirmStatus.Succ && recv == l.blkHeaderCache
 //@   at LRUCache.Add assert [C05] only_confirmed_blocks_are_cached: recv == l.blockCache ==> confirmStatus.Succ
 //@   at fieldwrite.meta assert [C04] tip_stays_or_moves_to_the_new_block: !isRoot ==> (newMeta.TipBlockid == block.Blockid || newMeta.TipBlockid == l.meta.TipBlockid) && newMeta.TrunkHeight >= l.meta.TrunkHeight && (newMeta.TipBlockid != l.meta.TipBlockid ==> newMeta.TrunkHeight > l.meta.TrunkHeight)
 //@   at Ledger.handleFork assert [C04] switch_only_to_a_strictly_higher_block: preBlock.Height + 1 > l.meta.TrunkHeight && newMeta.TrunkHeight == preBlock.Height + 1 && newMeta.TipBlockid == block.Blockid && (block != preBlock ==> block.Height == preBlock.Height + 1) && bytesEq($0, l.meta.TipBlockid) && bytesEq($1, preBlock.Blockid) && bytesEq($2, block.Blockid) && $3 == batchWrite
